@@ -82,19 +82,41 @@ fn extract_stdin_once() -> Result<Option<String>, Box<dyn std::error::Error>> {
 }
 
 pub fn run() {
-    let args: Vec<String> = std::env::args().collect();
+    // `std::env::args()` panics on an argument that is not valid UTF-8; report it instead
+    let mut args: Vec<String> = Vec::new();
+    for arg in std::env::args_os() {
+        match arg.into_string() {
+            Ok(arg) => args.push(arg),
+            Err(arg) => {
+                let _ = writeln!(
+                    std::io::stderr(),
+                    "Error: argument is not valid UTF-8: {}",
+                    arg.to_string_lossy()
+                );
+                std::process::exit(2);
+            }
+        }
+    }
     if let Err(e) = run_with_args(args, std::io::stdout()) {
         // Check if it's a clap help/version exit
         if let Some(clap_err) = e.downcast_ref::<clap::Error>() {
             match clap_err.kind() {
                 clap::error::ErrorKind::DisplayHelp | clap::error::ErrorKind::DisplayVersion => {
-                    print!("{clap_err}");
+                    // `print!` panics when stdout is closed or full
+                    let mut stdout = std::io::stdout();
+                    if write!(stdout, "{clap_err}")
+                        .and_then(|_| stdout.flush())
+                        .is_err()
+                    {
+                        std::process::exit(1);
+                    }
                     return;
                 }
                 _ => {}
             }
         }
-        eprintln!("Error: {e}");
+        // `eprintln!` panics when stderr cannot be written
+        let _ = writeln!(std::io::stderr(), "Error: {e}");
         std::process::exit(1);
     }
 }
